@@ -26,6 +26,13 @@ type c01Gen struct {
 	nn, gn  int
 	closure map[*c01Stmt]map[*c01Stmt]bool
 	rich    bool
+	// groupings whose expansion puts an rpc/action or a notification into the using parent (own
+	// top-level operations or a top-level uses of such a grouping): only used where the parent
+	// may hold operations (module, container, list, another grouping's top level)
+	bears map[*c01Stmt]bool
+	// > 0 while the members of an input/output/notification are generated: no operation and no
+	// operation-bearing uses in there (RFC 7950 7.15, 7.16)
+	inOp int
 	// names of the scoped groupings whose scope generation is currently inside: a scoped grouping
 	// never takes the name of a grouping of an enclosing scope (RFC 7950 5.5: no shadowing), but
 	// groupings in DISJOINT scopes of one module freely share names
@@ -122,10 +129,10 @@ func (g *c01Gen) props(k int) c01Props {
 	return p
 }
 
-func (g *c01Gen) usable(vis []*c01Stmt, reg *c01Region) []*c01Stmt {
+func (g *c01Gen) usable(vis []*c01Stmt, reg *c01Region, ops bool) []*c01Stmt {
 	var out []*c01Stmt
 	for _, c := range vis {
-		ok := true
+		ok := ops || !g.bears[c]
 		for x := range g.closure[c] {
 			if reg.used[x] {
 				ok = false
@@ -203,6 +210,88 @@ func (g *c01Gen) plainKids(n int, forChoice bool, depth int) []*c01Stmt {
 	return out
 }
 
+func (g *c01Gen) opProps() c01Props {
+	var p c01Props
+	if g.r.Chance(30, 100) {
+		p.Desc = "d" + g.node()
+	}
+	return p
+}
+
+// opStmt: an rpc/action {input; output} or a notification. body(holder) delivers the members of an
+// input/output/notification (holder may receive scoped groupings).
+func (g *c01Gen) opStmt(body func(holder *c01Stmt) []*c01Stmt) *c01Stmt {
+	r := g.r
+	if r.Chance(55, 100) {
+		a := &c01Stmt{T: tNode, K: kAction, Name: g.node(), P: g.opProps()}
+		both := r.Intn(4) // 0 input only, 1 output only, 2/3 both
+		if both != 1 {
+			in := &c01Stmt{T: tNode, K: kInput, Name: "input"}
+			in.Kids = body(in)
+			a.Kids = append(a.Kids, in)
+		}
+		if both != 0 {
+			out := &c01Stmt{T: tNode, K: kOutput, Name: "output"}
+			out.Kids = body(out)
+			a.Kids = append(a.Kids, out)
+		}
+		return a
+	}
+	n := &c01Stmt{T: tNode, K: kNotif, Name: g.node(), P: g.opProps()}
+	n.Kids = body(n)
+	return n
+}
+
+// members of an input/output/notification: a sibling scope of its own, groupings visible by name
+// are used in there (with refines/augments like anywhere else), sometimes a grouping private to it
+func (g *c01Gen) opBody(depth int, vis []*c01Stmt, must *c01Stmt) func(holder *c01Stmt) []*c01Stmt {
+	return func(holder *c01Stmt) []*c01Stmt {
+		r := g.r
+		g.inOp++
+		defer func() { g.inOp-- }()
+		reg := newC01Region()
+		v2 := vis
+		scoped := g.rich && r.Chance(15, 100)
+		if scoped {
+			sg := &c01Stmt{T: tGrouping, Name: g.scopedName()}
+			g.push(sg.Name)
+			defer g.pop()
+			sg.Kids = g.kidsOfGrouping(sg, depth+1, vis)
+			holder.Grps = append(holder.Grps, sg)
+			v2 = append(append([]*c01Stmt(nil), vis...), sg)
+		}
+		var out []*c01Stmt
+		if r.Chance(35, 100) {
+			out = append(out, &c01Stmt{T: tNode, K: kLeaf, Name: g.node(), P: g.props(kLeaf)})
+		}
+		us := g.usable(v2, reg, false)
+		switch {
+		case must != nil && !reg.used[must]:
+			out = append(out, g.mkUses(must, reg))
+			must = nil
+		case len(us) > 0 && r.Chance(50, 100):
+			out = append(out, g.mkUses(us[r.Intn(len(us))], reg))
+		}
+		if len(out) == 0 || r.Chance(60, 100) {
+			out = append(out, g.kids(depth+1, reg, v2, 2, false)...)
+		}
+		return out
+	}
+}
+
+func (g *c01Gen) plainOpBody(holder *c01Stmt) []*c01Stmt {
+	return g.plainKids(1+g.r.Intn(2), false, 2)
+}
+
+// setBears: does the expansion of gr add operations to the using parent
+func (g *c01Gen) setBears(gr *c01Stmt) {
+	for _, s := range gr.Kids {
+		if c01IsOp(s) || (s.T == tUses && g.bears[s.Target]) {
+			g.bears[gr] = true
+		}
+	}
+}
+
 func (g *c01Gen) mkUses(t *c01Stmt, reg *c01Region) *c01Stmt {
 	r := g.r
 	u := &c01Stmt{T: tUses, Target: t}
@@ -221,7 +310,7 @@ func (g *c01Gen) mkUses(t *c01Stmt, reg *c01Region) *c01Stmt {
 		n := 1 + r.Intn(2)
 		for i := 0; i < n; i++ {
 			pi := paths[r.Intn(len(paths))]
-			if pi.Node == nil {
+			if pi.Node == nil || pi.K >= kAction {
 				continue
 			}
 			u.Refs = append(u.Refs, g.refineFor(pi))
@@ -230,7 +319,7 @@ func (g *c01Gen) mkUses(t *c01Stmt, reg *c01Region) *c01Stmt {
 	if len(paths) > 0 && r.Chance(35, 100) {
 		var tg []c01PathInfo
 		for _, pi := range paths {
-			if pi.K == kCont || pi.K == kList || pi.K == kChoice || pi.K == kCase {
+			if pi.K == kCont || pi.K == kList || pi.K == kChoice || pi.K == kCase || pi.K == kNotif {
 				tg = append(tg, pi)
 			}
 		}
@@ -239,6 +328,10 @@ func (g *c01Gen) mkUses(t *c01Stmt, reg *c01Region) *c01Stmt {
 			pi := tg[r.Intn(len(tg))]
 			a := &c01Stmt{T: tAugment, Path: pi.Path, PathPfx: r.Chance(20, 100)}
 			a.Kids = g.plainKids(1+r.Intn(2), pi.K == kChoice, 1)
+			if (pi.K == kCont || pi.K == kList) && !pi.InOp && g.inOp == 0 && r.Chance(15, 100) {
+				// an augment may add an action / a notification to a container or list
+				a.Kids = append(a.Kids, g.opStmt(g.plainOpBody))
+			}
 			if r.Chance(12, 100) {
 				a.W = g.expr()
 			}
@@ -250,13 +343,20 @@ func (g *c01Gen) mkUses(t *c01Stmt, reg *c01Region) *c01Stmt {
 
 // kids of one parent; vis: groupings visible by name here; file-imports decide whether imported
 // groupings may be referenced directly
-func (g *c01Gen) kids(depth int, reg *c01Region, vis []*c01Stmt, maxN int) []*c01Stmt {
+// ops: may the parent hold rpcs/actions and notifications (module, container, list, top level of a
+// grouping that is then operation-bearing)
+func (g *c01Gen) kids(depth int, reg *c01Region, vis []*c01Stmt, maxN int, ops bool) []*c01Stmt {
 	r := g.r
 	n := 1 + r.Intn(maxN)
+	ops = ops && g.inOp == 0
 	var out []*c01Stmt
 	for i := 0; i < n; i++ {
+		if ops && r.Chance(8, 100) {
+			out = append(out, g.opStmt(g.opBody(depth, vis, nil)))
+			continue
+		}
 		roll := r.Intn(100)
-		us := g.usable(vis, reg)
+		us := g.usable(vis, reg, ops)
 		switch {
 		case roll < 28 && len(us) > 0:
 			out = append(out, g.mkUses(us[r.Intn(len(us))], reg))
@@ -272,7 +372,7 @@ func (g *c01Gen) kids(depth int, reg *c01Region, vis []*c01Stmt, maxN int) []*c0
 				c.Grps = append(c.Grps, sg)
 				v2 = append(append([]*c01Stmt(nil), vis...), sg)
 			}
-			c.Kids = g.kids(depth+1, newC01Region(), v2, 3)
+			c.Kids = g.kids(depth+1, newC01Region(), v2, 3, true)
 			if scoped {
 				g.pop()
 			}
@@ -281,7 +381,7 @@ func (g *c01Gen) kids(depth int, reg *c01Region, vis []*c01Stmt, maxN int) []*c0
 			l := &c01Stmt{T: tNode, K: kList, Name: g.node(), P: g.props(kList)}
 			key := &c01Stmt{T: tNode, K: kLeaf, Name: g.node()}
 			l.Keys = []string{key.Name}
-			l.Kids = append([]*c01Stmt{key}, g.kids(depth+1, newC01Region(), vis, 2)...)
+			l.Kids = append([]*c01Stmt{key}, g.kids(depth+1, newC01Region(), vis, 2, true)...)
 			out = append(out, l)
 		case roll < 65 && depth < 3:
 			ch := &c01Stmt{T: tNode, K: kChoice, Name: g.node(), P: g.props(kChoice)}
@@ -289,7 +389,7 @@ func (g *c01Gen) kids(depth int, reg *c01Region, vis []*c01Stmt, maxN int) []*c0
 			for j := 0; j < nc; j++ {
 				if r.Bool() {
 					cs := &c01Stmt{T: tNode, K: kCase, Name: g.node(), P: g.props(kCase)}
-					cs.Kids = g.kids(depth+1, reg, vis, 2)
+					cs.Kids = g.kids(depth+1, reg, vis, 2, false)
 					ch.Kids = append(ch.Kids, cs)
 				} else {
 					ch.Kids = append(ch.Kids, g.plainKids(1, false, depth+1)...)
@@ -317,7 +417,7 @@ func (g *c01Gen) kidsOfGrouping(gr *c01Stmt, depth int, vis []*c01Stmt) []*c01St
 		gr.Grps = append(gr.Grps, ng)
 		v2 = append(append([]*c01Stmt(nil), vis...), ng)
 	}
-	ks := g.kids(depth, reg, v2, 3)
+	ks := g.kids(depth, reg, v2, 3, true)
 	if nested {
 		g.pop()
 	}
@@ -326,11 +426,13 @@ func (g *c01Gen) kidsOfGrouping(gr *c01Stmt, depth int, vis []*c01Stmt) []*c01St
 		cl[x] = true
 	}
 	g.closure[gr] = cl
+	gr.Kids = ks
+	g.setBears(gr)
 	return ks
 }
 
 func c01GenModset(r *gen.Rng, idx int, rich bool) *c01Modset {
-	g := &c01Gen{r: r, closure: map[*c01Stmt]map[*c01Stmt]bool{}, rich: rich}
+	g := &c01Gen{r: r, closure: map[*c01Stmt]map[*c01Stmt]bool{}, rich: rich, bears: map[*c01Stmt]bool{}}
 	name := fmt.Sprintf("m%d", idx)
 	ms := &c01Modset{Main: &c01Module{Name: name, Prefix: "mp"}}
 	g.ms = ms
@@ -376,7 +478,7 @@ func c01GenModset(r *gen.Rng, idx int, rich bool) *c01Modset {
 		if f != ms.Main {
 			mx = 2
 		}
-		f.Body = g.kids(0, top, vis, mx)
+		f.Body = g.kids(0, top, vis, mx, true)
 	}
 	if rich && r.Chance(40, 100) {
 		// two sibling containers using one grouping with different refines
@@ -410,21 +512,92 @@ func c01GenModset(r *gen.Rng, idx int, rich bool) *c01Modset {
 			if shape == 0 || (shape == 2 && j == 0) {
 				c.Grps = []*c01Stmt{sg}
 				reg := newC01Region()
-				c.Kids = append([]*c01Stmt{g.mkUses(sg, reg)}, g.kids(1, reg, v2, 2)...)
+				c.Kids = append([]*c01Stmt{g.mkUses(sg, reg)}, g.kids(1, reg, v2, 2, true)...)
 			} else {
 				gr := &c01Stmt{T: tGrouping, Name: g.group(), Grps: []*c01Stmt{sg}}
 				reg := newC01Region()
-				gr.Kids = append([]*c01Stmt{g.mkUses(sg, reg)}, g.kids(1, reg, v2, 2)...)
+				gr.Kids = append([]*c01Stmt{g.mkUses(sg, reg)}, g.kids(1, reg, v2, 2, true)...)
 				cl := map[*c01Stmt]bool{gr: true}
 				for x := range reg.used {
 					cl[x] = true
 				}
 				g.closure[gr] = cl
+				g.setBears(gr)
 				f.Grps = append(f.Grps, gr)
 				c.Kids = []*c01Stmt{g.mkUses(gr, newC01Region())}
 			}
 			g.pop()
 			f.Body = append(f.Body, c)
+		}
+	}
+	if r.Chance(45, 100) {
+		// operations that come out of a grouping: grouping G1 { [leaf] rpc/action {input/output}
+		// and/or notification, whose members use a grouping G2 (any visible one, else a new one) }
+		// with G1 defined in any local file or an imported module, used from a container, a list,
+		// the module level, or through one more grouping
+		f := locals[r.Intn(len(locals))]
+		vis := visLocal
+		if f == ms.Main {
+			vis = append(append([]*c01Stmt(nil), visLocal...), visMain...)
+		}
+		def := f
+		if len(ms.Imps) > 0 && r.Chance(25, 100) {
+			// G1 (and the G2 it uses) live in an imported module; used from the main module
+			def, f, vis = ms.Imps[r.Intn(len(ms.Imps))].M, ms.Main, nil
+		}
+		var inner *c01Stmt
+		if us := g.usable(vis, newC01Region(), false); len(us) > 0 && r.Chance(60, 100) {
+			inner = us[r.Intn(len(us))]
+		} else {
+			inner = &c01Stmt{T: tGrouping, Name: g.group()}
+			inner.Kids = g.plainKids(1+r.Intn(2), false, 1)
+			g.closure[inner] = map[*c01Stmt]bool{inner: true}
+			def.Grps = append(def.Grps, inner)
+		}
+		g1 := &c01Stmt{T: tGrouping, Name: g.group()}
+		def.Grps = append(def.Grps, g1)
+		v1 := append(append([]*c01Stmt(nil), vis...), inner)
+		if r.Chance(40, 100) {
+			g1.Kids = append(g1.Kids, &c01Stmt{T: tNode, K: kLeaf, Name: g.node(), P: g.props(kLeaf)})
+		}
+		nops := 1 + r.Intn(2)
+		for j := 0; j < nops; j++ {
+			must := inner
+			if j > 0 && r.Bool() {
+				must = nil
+			}
+			g1.Kids = append(g1.Kids, g.opStmt(g.opBody(1, v1, must)))
+		}
+		g.closure[g1] = map[*c01Stmt]bool{g1: true}
+		g.bears[g1] = true
+		target := g1
+		if r.Chance(25, 100) {
+			// through one more grouping: grouping G0 { uses G1; }
+			g0 := &c01Stmt{T: tGrouping, Name: g.group()}
+			g0.Kids = []*c01Stmt{g.mkUses(g1, newC01Region())}
+			g.closure[g0] = map[*c01Stmt]bool{g0: true, g1: true}
+			g.bears[g0] = true
+			def.Grps = append(def.Grps, g0)
+			target = g0
+		}
+		nuse := 1 + r.Intn(2)
+		for j := 0; j < nuse; j++ {
+			switch r.Intn(3) {
+			case 0:
+				c := &c01Stmt{T: tNode, K: kCont, Name: g.node(), P: g.props(kCont)}
+				c.Kids = []*c01Stmt{g.mkUses(target, newC01Region())}
+				f.Body = append(f.Body, c)
+			case 1:
+				l := &c01Stmt{T: tNode, K: kList, Name: g.node(), P: g.props(kList)}
+				key := &c01Stmt{T: tNode, K: kLeaf, Name: g.node()}
+				l.Keys = []string{key.Name}
+				l.Kids = []*c01Stmt{key, g.mkUses(target, newC01Region())}
+				f.Body = append(f.Body, l)
+			default:
+				if !top.used[target] && !top.used[g1] {
+					f.Body = append(f.Body, g.mkUses(target, top))
+				}
+			}
 		}
 	}
 	// module-level augments
@@ -441,7 +614,7 @@ func c01GenModset(r *gen.Rng, idx int, rich bool) *c01Modset {
 	for i := 0; i < nAug; i++ {
 		var tg []c01PathInfo
 		for _, pi := range paths {
-			if pi.K == kCont || pi.K == kList || pi.K == kChoice || pi.K == kCase {
+			if pi.K == kCont || pi.K == kList || pi.K == kChoice || pi.K == kCase || pi.K == kNotif {
 				tg = append(tg, pi)
 			}
 		}
@@ -451,13 +624,16 @@ func c01GenModset(r *gen.Rng, idx int, rich bool) *c01Modset {
 		pi := tg[r.Intn(len(tg))]
 		a := &c01Stmt{T: tAugment, Path: pi.Path, PathPfx: r.Bool()}
 		a.Kids = g.plainKids(1+r.Intn(2), pi.K == kChoice, 1)
+		if (pi.K == kCont || pi.K == kList) && !pi.InOp && r.Chance(15, 100) {
+			a.Kids = append(a.Kids, g.opStmt(g.plainOpBody))
+		}
 		if r.Chance(12, 100) {
 			a.W = g.expr()
 		}
 		f := locals[r.Intn(len(locals))]
 		f.Augs = append(f.Augs, a)
 		// later augments may target what this one adds
-		c01Paths(a.Kids, pi.Path, false, pi.K == kChoice, 0, &paths)
+		c01PathsIn(a.Kids, pi.Path, false, pi.K == kChoice, 0, pi.InOp || pi.K == kNotif, &paths)
 	}
 	return ms
 }
@@ -481,7 +657,12 @@ func c01Load(ms *c01Modset) (obsTerm string, status string) {
 	if err != nil {
 		return "ObsErr", "error: " + err.Error()
 	}
-	return emit.App("ObsOk", c01DumpDefs(m.DataDefinitions())), "ok"
+	dp := &c01Dump{}
+	t := dp.members(m)
+	if dp.residue != "" {
+		return "ObsResidue", "residue: the compiled tree holds a definition that is no schema node: " + dp.residue
+	}
+	return emit.App("ObsOk", t), "ok"
 }
 
 func (ms *c01Modset) desc() map[string]interface{} {
@@ -512,6 +693,33 @@ func (ms *c01Modset) countFeatures(ctx *core.Ctx) (nUses, nRef, nAug int) {
 			if s.T == tAugment && s.W != nil {
 				ctx.Count("augment-with-when")
 			}
+			if s.T == tAugment {
+				for _, k := range s.Kids {
+					if c01IsOp(k) {
+						ctx.Count("operation-added-by-augment")
+					}
+				}
+			}
+			if s.T == tGrouping {
+				for _, k := range s.Kids {
+					if !c01IsOp(k) {
+						continue
+					}
+					ctx.Count("operation-in-grouping:" + c01KindName[k.K])
+					nested := false
+					c01WalkList(k.Kids, func(x *c01Stmt) {
+						if x.T == tUses {
+							nested = true
+						}
+					})
+					if nested {
+						ctx.Count("operation-in-grouping-with-nested-uses")
+					}
+				}
+			}
+			if c01IsOp(s) {
+				ctx.Count("operation:" + c01KindName[s.K])
+			}
 		})
 	}
 	return
@@ -520,7 +728,7 @@ func (ms *c01Modset) countFeatures(ctx *core.Ctx) (nUses, nRef, nAug int) {
 // C01: module sets and their refactorings, loaded by the real parser+resolver+compiler.
 func C01(ctx *core.Ctx) error {
 	ctx.Imports = "Schemac.Ast Schemac.Expand Check.C01Check"
-	ctx.Rule = "case = (module set a, module set b = T a for one meaning-preserving refactoring T, or b = a; accessor dump of both as loaded by parser.LoadModuleFromString with an in-memory source.Opener for submodules and imports). Module sets: main module, 0-2 submodules, 0-2 imported modules, 0-4 module-level groupings (in any file; nested and sibling-scoped groupings, named from a pool of three so that disjoint scopes of one file define DIFFERENT groupings under ONE name, never shadowing an enclosing scope; groupings using groupings), uses with when/refine/augment, module-level augments (also into grouping-expanded content, choices, implied cases, earlier augments), config stated at random. T: inline a uses; extract siblings into a grouping; move an augment body into its target; move a definition to a submodule; move a grouping to an imported module; rename every local grouping definition to a fresh name of its own (always applied when one name is bound by two definitions); independent copies (drop the refines/augments of the first of two uses, compare under the second). non-trivial = the module set contains at least one uses or augment"
+	ctx.Rule = "case = (module set a, module set b = T a for one meaning-preserving refactoring T, or b = a; accessor dump of both as loaded by parser.LoadModuleFromString with an in-memory source.Opener for submodules and imports). Module sets: main module, 0-2 submodules, 0-2 imported modules, 0-4 module-level groupings (in any file; nested and sibling-scoped groupings, named from a pool of three so that disjoint scopes of one file define DIFFERENT groupings under ONE name, never shadowing an enclosing scope; groupings using groupings), uses with when/refine/augment, module-level augments (also into grouping-expanded content, choices, implied cases, notifications, earlier augments), config stated at random; rpcs/actions {input; output} and notifications written in modules, containers, lists, at the top level of groupings of every scope (imported and submodule groupings too) and in augment bodies for containers/lists, their input/output/notification members using the visible groupings (with when/refine/augment) and sometimes holding a private grouping; about half of the module sets hold a grouping G1 with 1-2 operations whose members use a grouping G2, G1 used from a container, a list, the module level or through one more grouping. The dump walks DataDefinitions(), Actions(), Notifications(), Input(), Output(); a definition that is no schema node (an unexpanded uses) anywhere in it is reported as ObsResidue. T: inline a uses; extract siblings into a grouping; move an augment body into its target; move a definition to a submodule; move a grouping to an imported module; rename every local grouping definition to a fresh name of its own (always applied when one name is bound by two definitions); independent copies (drop the refines/augments of the first of two uses, compare under the second). non-trivial = the module set contains at least one uses or augment"
 	r := gen.New(ctx.Seed)
 	nsets := ctx.Scale(90, 1500)
 	if ctx.Tier == "search" {
